@@ -1,6 +1,7 @@
 """C18 — deductive part: frame conditions ("never mutates the formula / a previously obtained spec") of the functions under
 contract on the materialization path.  `_evaluate_factor` writes `self.factor_cache` only (vf/proofs/c09_eval.py): the Factor object
-of the caller's Formula and the spec it is evaluated against are not stored to.  Everything else (bit-identical repetition,
+of the caller's Formula and the spec it is evaluated against are not stored to.  `stateful_eval` (vf/proofs/c18_eval.py): everything that may write to an evaluation environment is applied to a
+private layer created inside the call, never to the caller's (long-lived) mapping.  Everything else (bit-identical repetition,
 hash-seed independence, interleaved histories) is decided by the bounded driver."""
 
 
@@ -8,3 +9,6 @@ def run_proofs(ctx):
     from vf.proofs import c09_eval
 
     c09_eval.run_proofs(ctx)
+    from vf.proofs import c18_eval
+
+    c18_eval.run_proofs(ctx)
